@@ -1477,11 +1477,23 @@ pub fn wall_now() -> i128 {
 }
 
 /// Interposed `clock_gettime`: the simulated clocks for code that reaches the C library without
-/// passing a source-level seam. No scheduling point (the caller's frames cannot be unwound), but
-/// a wall-clock reading is recorded like any other. None outside a task.
+/// passing a source-level seam (and, since `verif_std::time::SystemTime` became std's own type, for
+/// every wall-clock reading). A wall-clock reading is a scheduling point and is recorded; a
+/// monotonic one is neither. None outside a task.
 pub fn intercepted_clock(realtime: bool) -> Option<i128> {
-    if std::thread::panicking() {
+    if std::thread::panicking() || !in_task() {
         return None;
+    }
+    if realtime {
+        // a wall-clock reading is a scheduling point like the one the source-level seam used to
+        // make (the task is inside a foreign frame while it is parked there)
+        let me = with(|w| {
+            let t = w.current.unwrap();
+            w.tasks[t].foreign_depth += 1;
+            t
+        });
+        yield_point(Op::ClockRead);
+        with(|w| w.tasks[me].foreign_depth = w.tasks[me].foreign_depth.saturating_sub(1));
     }
     try_with(|w| {
         w.current?;
